@@ -812,18 +812,41 @@ class Rpms03Refile(Contract):
     name = "productmd.rpms.Rpms.deserialize_0_3"
     key = "meth:rpms.Rpms.deserialize_0_3"
 
-    def __init__(self, src, T):
+    def __init__(self, src, T, two_variants=False):
         self.src, self.T = src, T
+        # second shape: {V: {A1: {S: {R1}}, 'src': {S: srec}}, V2: {A1: {S: {R2}}, 'src': {S: srec2}}} -- two variants shipping packages
+        # built from the SAME source RPM under the SAME binary arch, each with its own source record
+        self.two_variants = two_variants
+        if two_variants:
+            self.name = self.name + "[two variants sharing a source RPM]"
+            self.key = self.key + ":2v"
+
+    def _docs(self, a, D, rec, src_first):
+        """[(variant, [(arch, content) ...])] of the legacy document"""
+        if not self.two_variants:
+            arches = [(a["A1"], D([(a["S"], D([(a["R1"], rec(a["type1"], a["path1"], a["sigkey1"]))]))])),
+                      (a["A2"], D([(a["S"], D([(a["R2"], rec(a["type2"], a["path2"], a["sigkey2"]))]))]))]
+            srcd = ("src", D([(a["S"], rec("source", a["spath"], a["ssigkey"]))]))
+            return [(a["V"], [srcd] + arches if src_first else arches + [srcd])]
+        out = []
+        for v, r, t, pth, sk, sp, ssk in ((a["V"], a["R1"], a["type1"], a["path1"], a["sigkey1"], a["spath"], a["ssigkey"]),
+                                          (a["V2"], a["R2"], a["type2"], a["path2"], a["sigkey2"], a["spath2"], a["ssigkey2"])):
+            bin_ = (a["A1"], D([(a["S"], D([(r, rec(t, pth, sk))]))]))
+            srcd = ("src", D([(a["S"], rec("source", sp, ssk))]))
+            out.append((v, [srcd, bin_] if src_first else [bin_, srcd]))
+        return out
 
     def setup(self, E):
         m = E.instantiate(("rpms", "Rpms"))
         a = {}
-        for n in ("V", "A1", "A2", "S", "R1", "R2", "path1", "path2", "spath", "type1", "type2"):
+        for n in ("V", "A1", "A2", "S", "R1", "R2", "path1", "path2", "spath", "type1", "type2") + (("V2", "spath2") if self.two_variants else ()):
             a[n] = SV(sym.Val.VStr(z3.Const("d.%s" % n, sym.S)))
-        for n in ("sigkey1", "sigkey2", "ssigkey"):
+        for n in ("sigkey1", "sigkey2", "ssigkey") + (("ssigkey2",) if self.two_variants else ()):
             a[n] = SV(z3.Const("d.%s" % n, sym.Val))
             E.assume(Or(is_none(a[n]), is_str(a[n])))
         E.assume(And(Not(eq(a["A1"], a["A2"])), Not(eq(a["A1"], "src")), Not(eq(a["A2"], "src"))))
+        if self.two_variants:
+            E.assume(Not(eq(a["V"], a["V2"])))
 
         def D(items):
             d = E.models.new_dict("doc")
@@ -833,12 +856,8 @@ class Rpms03Refile(Contract):
 
         def rec(t, path, sig):
             return D([("type", t), ("path", path), ("sigkey", sig)])
-        arches = [(a["A1"], D([(a["S"], D([(a["R1"], rec(a["type1"], a["path1"], a["sigkey1"]))]))])),
-                  (a["A2"], D([(a["S"], D([(a["R2"], rec(a["type2"], a["path2"], a["sigkey2"]))]))]))]
-        srcd = ("src", D([(a["S"], rec("source", a["spath"], a["ssigkey"]))]))
         src_first = E.decide(E.fresh("src_first", z3.BoolSort()))
-        arches = [srcd] + arches if src_first else arches + [srcd]
-        data = D([("payload", D([("compose", D([])), ("manifest", D([(a["V"], D(arches))]))]))])
+        data = D([("payload", D([("compose", D([])), ("manifest", D([(v, D(arches)) for v, arches in self._docs(a, D, rec, src_first)]))]))])
         calls = []
 
         def add(E_, o, args, kwargs):
@@ -855,8 +874,12 @@ class Rpms03Refile(Contract):
             E.summaries.pop((("rpms", "Rpms"), "add"), None)
             E.summaries.pop((("composeinfo", "Compose"), "deserialize"), None)
 
-    @staticmethod
-    def expected(a, cat):
+    def expected(self, a, cat):
+        if self.two_variants:
+            return [(a["V"], a["A1"], a["R1"], a["path1"], a["sigkey1"], cat(a["type1"]), a["S"]),
+                    (a["V"], a["A1"], a["S"], a["spath"], a["ssigkey"], "source", None),
+                    (a["V2"], a["A1"], a["R2"], a["path2"], a["sigkey2"], cat(a["type2"]), a["S"]),
+                    (a["V2"], a["A1"], a["S"], a["spath2"], a["ssigkey2"], "source", None)]
         return [(a["V"], a["A1"], a["R1"], a["path1"], a["sigkey1"], cat(a["type1"]), a["S"]),
                 (a["V"], a["A1"], a["S"], a["spath"], a["ssigkey"], "source", None),
                 (a["V"], a["A2"], a["R2"], a["path2"], a["sigkey2"], cat(a["type2"]), a["S"]),
@@ -874,7 +897,11 @@ class Rpms03Refile(Contract):
                 row[names.index(k)] = v
             got.append(row)
         exp = self.expected(a, lambda t: If(eq(t, "package"), "binary", t))
-        same = len(got) == 4 and And(*[_veq(g, e) for grow, erow in zip(got, exp) for g, e in zip(grow, erow)])
+        # the calls are compared as SETS of argument rows: add() is idempotent for equal arguments and the manifest it builds does not
+        # depend on the order of adds to different keys, so neither the order nor repetitions are part of the contract
+        def row_eq(g, e):
+            return And(*[_veq(x, y) for x, y in zip(g, e)])
+        same = bool(got) and And(And(*[Or(*[row_eq(g, e) for e in exp]) for g in got]), And(*[Or(*[row_eq(g, e) for g in got]) for e in exp]))
         return {"legacy_document_is_read": True,
                 "every_record_refiled_with_its_own_fields": same,
                 "nothing_filed_under_src": And(*[Not(eq(r[1], "src")) for r in got]) if got else True}
@@ -887,9 +914,11 @@ class Rpms03Refile(Contract):
     def sample_inputs(self, rng):
         base = {"V": "Server", "A1": "x86_64", "A2": "s390x", "S": "s-0:1-1.src", "R1": "a-0:1-1.x86_64", "R2": "a-0:1-1.s390x", "path1": "p1",
                 "path2": "p2", "spath": "sp", "type1": "package", "type2": "debug", "sigkey1": "k1", "sigkey2": None, "ssigkey": "sk"}
+        base.update({"V2": "Workstation", "spath2": "sp2", "ssigkey2": None})
         for sf in (False, True):
             yield dict(base, src_first=sf)
             yield dict(base, src_first=sf, ssigkey=None, sigkey1="zz")
+            yield dict(base, src_first=sf, V="Workstation", V2="Server")
 
     def native_eval(self, a):
         mod = self.src.mods["rpms"]
@@ -900,13 +929,10 @@ class Rpms03Refile(Contract):
 
         def rec(t, path, sig):
             return {"type": t, "path": path, "sigkey": sig}
-        arches = [(a["A1"], {a["S"]: {a["R1"]: rec(a["type1"], a["path1"], a["sigkey1"])}}),
-                  (a["A2"], {a["S"]: {a["R2"]: rec(a["type2"], a["path2"], a["sigkey2"])}})]
-        srcd = ("src", {a["S"]: rec("source", a["spath"], a["ssigkey"])})
-        arches = [srcd] + arches if a.get("src_first") else arches + [srcd]
-        if len(dict(arches)) != 3:
+        docs = self._docs(a, dict, rec, a.get("src_first"))
+        if len(dict(docs)) != len(docs) or any(len(dict(ar)) != len(ar) for v, ar in docs):
             return ("skip", None), None
-        data = {"payload": {"compose": {}, "manifest": {a["V"]: dict(arches)}}}
+        data = {"payload": {"compose": {}, "manifest": dict((v, dict(ar)) for v, ar in docs)}}
         nat = native_call(m.deserialize_0_3, data)
         if nat[0] == "raise":
             return nat, {"legacy_document_is_read": False}
@@ -918,7 +944,7 @@ class Rpms03Refile(Contract):
                 row[names.index(k)] = v
             got.append(tuple(row))
         exp = self.expected(a, lambda t: "binary" if t == "package" else t)
-        return nat, {"legacy_document_is_read": True, "every_record_refiled_with_its_own_fields": got == exp,
+        return nat, {"legacy_document_is_read": True, "every_record_refiled_with_its_own_fields": set(got) == set(tuple(e) for e in exp),
                      "nothing_filed_under_src": all(r[1] != "src" for r in got)}
 
     def describe(self, a):
@@ -989,4 +1015,4 @@ def contracts(src, T):          # noqa: F811
             ManifestVerbatim(src, T, "rpms", "Rpms", "rpms"), ManifestVerbatim(src, T, "modules", "Modules", "modules"),
             ManifestVerbatim(src, T, "extra_files", "ExtraFiles", "extra_files"),
             ManifestShape(src, T, "rpms", "Rpms", "rpms"), ManifestShape(src, T, "modules", "Modules", "modules"),
-            ManifestShape(src, T, "extra_files", "ExtraFiles", "extra_files"), Rpms03Refile(src, T)]
+            ManifestShape(src, T, "extra_files", "ExtraFiles", "extra_files"), Rpms03Refile(src, T), Rpms03Refile(src, T, two_variants=True)]
